@@ -248,6 +248,7 @@ class Assembled:
     selfcheck_ok: bool = True
     assumed: List[dict] = field(default_factory=list)   # @assume_body contracts
     clauses_by_fn: Dict[str, int] = field(default_factory=dict)
+    native_items: Dict[str, str] = field(default_factory=dict)   # item path -> native rendering (rules applied, real bodies, std derives)
 
 
 class _Builder:
@@ -339,6 +340,7 @@ def assemble(sc: Sidecar, mutate=None, canary: Optional[str] = None, plain_only:
     plain_parts = []
     assumed = []        # contracts assumed via @assume_body (trusted border), per function
     clauses_by_fn = {}
+    native_items = {}
     native_over = {}    # index into plain_parts -> text for the NATIVE rendering (std derives kept)
     all_binds = {}
     selfcheck_ok = True
@@ -415,6 +417,13 @@ def assemble(sc: Sidecar, mutate=None, canary: Optional[str] = None, plain_only:
             if m:
                 edits.append(R.Edit(m.start(), m.end(), ex.vis + ' ' if ex.vis else '', 'R6', 'visibility -> `%s` (no executable effect)' % ex.vis))
         rewritten, applied = R.apply_edits(text, edits)
+        # native rendering of this item: the same rules, but the REAL body of an assumed function and the std derives of a type
+        if plain_type_edits is not None and ex.vis is None and not ex.dropbounds:
+            native_items[ex.path] = R.apply_edits(text, plain_type_edits + (R.pub_fields(text) if ex.pubfields else []))[0]
+        elif ex.assume_body:
+            native_items[ex.path] = R.apply_edits(text, [e for e in edits if e.rule != 'ASSUMED'])[0]
+        else:
+            native_items[ex.path] = rewritten
         # char-level origin map: rewritten offset -> original offset (or -1)
         omap = []
         pos = 0
@@ -635,7 +644,7 @@ def assemble(sc: Sidecar, mutate=None, canary: Optional[str] = None, plain_only:
     b.add('\n} // verus!\nfn main() {}\n', lambda k: LineOrigin('frame', sc.path, 0))
     text, origins = b.finish()
     sources = {f: hashlib.sha256(s.text.encode()).hexdigest() for f, s in cache.items()}
-    asm = Assembled(text, origins, sources, drops, functions, splice_count, clause_count, assumed=assumed, clauses_by_fn=clauses_by_fn,
+    asm = Assembled(text, origins, sources, drops, functions, splice_count, clause_count, assumed=assumed, clauses_by_fn=clauses_by_fn, native_items=native_items,
                     plain=''.join(native_over.get(i, t) for i, t in enumerate(plain_parts)), binds=all_binds)
     # ---- self-check (3.3): removing every line that came from a splice/raw/frame and undoing nothing
     # else must give exactly the rule-rewritten token stream of the extracted items
